@@ -64,7 +64,105 @@ def cases(tier):
     nb = 32
     for b in range(nb):
         out.append({"kind": "gg", "narcs": narcs, "block": b, "nblocks": nb, "tier": tier})
+    # kilometre-scale arcs (0.03 .. 0.3 degrees) on local rational lattices
+    for bi in range(len(SHORT_BASES)):
+        for blk in range(4):
+            out.append({"kind": "short", "base": bi, "block": blk, "nblocks": 4, "tier": tier})
     return out
+
+
+# local lattices in the stereographic plane (projection from the south pole: lines through the origin are meridians)
+SHORT_BASES = [(S.Fr(3, 7), S.Fr(2, 5)), (S.Fr(1), S.Fr(0)), (S.Fr(-1), S.Fr(1, 900)), (S.Fr(1, 500), S.Fr(1, 700)), (S.Fr(-3, 5), S.Fr(-4, 5)), (S.Fr(0), S.Fr(5, 2))]
+SHORT_H = S.Fr(1, 1500)
+
+
+def _short_points(bi, n=4):
+    s0, t0 = SHORT_BASES[bi]
+    loc = [S.stereo(s0 + i * SHORT_H, t0 + j * SHORT_H + i * SHORT_H / 7) for i in range(n) for j in range(n)]
+    rad = [S.stereo(s0 * (1 + k * SHORT_H), t0 * (1 + k * SHORT_H)) for k in range(6)]  # on one meridian
+    return loc, rad
+
+
+def _run_short(case, res):
+    from uxarray.grid.arcs import extreme_gca_latitude, point_within_gca
+    from uxarray.grid.intersections import gca_gca_intersection
+
+    V = res["violations"]
+    tier = case["tier"]
+    loc, rad = _short_points(case["base"])
+    pts = loc + rad[1:]
+    arcs = [(pts[i], pts[j]) for i in range(len(pts)) for j in range(i + 1, len(pts))]
+    pairs = [(i, j) for i in range(len(arcs)) for j in range(i + 1, len(arcs))][case["block"]:: case["nblocks"]]
+    ncross = 0
+    for pi, (i, j) in enumerate(pairs):
+        (a, b), (c, d) = arcs[i], arcs[j]
+        if len({a, b, c, d}) < 4:
+            continue  # arcs sharing an endpoint: the crossing decision has no margin
+        crosses, x, m = S.crossing(a, b, c, d)
+        if crosses is None or m < MARGIN:
+            continue
+        if S.plane_distance(c, a, b) < MARGIN and S.plane_distance(d, a, b) < MARGIN:
+            continue  # (nearly) the same great circle: excluded by the statement
+        ncross += int(crosses)
+        tags = sorted(set(_tags(a, b) + _tags(c, d)))
+        for vname, T in _variants(tier, pi):
+            for order in (0, 1):
+                A = np.array([_f(T(a)), _f(T(b))])
+                B = np.array([_f(T(c)), _f(T(d))])
+                g1, g2 = (A, B) if order == 0 else (B, A)
+                k1, k2 = g1.copy(), g2.copy()
+                res["evaluations"] += 1
+                try:
+                    out = np.asarray(gca_gca_intersection(g1, g2), dtype=float).reshape(-1, 3)
+                    err = None
+                except Exception as e:
+                    out, err = np.zeros((0, 3)), type(e).__name__
+                why = ""
+                if err:
+                    why = "raises:" + err
+                elif not (np.array_equal(g1, k1) and np.array_equal(g2, k2)):
+                    why = "modifies-input"
+                elif crosses:
+                    if len(out) != 1:
+                        why = "missed-crossing" if len(out) == 0 else "extra-points"
+                    else:
+                        xf = np.array(S.fl(T(x)))
+                        xf /= np.linalg.norm(xf)
+                        if math.atan2(np.linalg.norm(np.cross(out[0], xf)), float(np.dot(out[0], xf))) > 1e-9:
+                            why = "wrong-point"
+                elif len(out) != 0:
+                    why = "false-intersection"
+                if why:
+                    V.append({"oracle": "gca_gca_intersection", "sig": "c14:gg:short:%s:%s" % (why, "+".join(tags) or "generic"), "msg": "short arcs %s->%s and %s->%s (lengths %.2e, %.2e rad; variant %s, order %d): returned %s; exact: %s (smallest decision margin %.2e rad)" % (S.fl(a), S.fl(b), S.fl(c), S.fl(d), S.angle_f(a, b), S.angle_f(c, d), vname, order, out.tolist(), ("one crossing at %s" % (np.round(np.array(S.fl(x)) / S.norm_f(x), 12).tolist(),)) if crosses else "no crossing", m), "focus": {"kind": "replay1", "fn": "gg", "a": _rat(T(a)), "b": _rat(T(b)), "c": _rat(T(c)), "d": _rat(T(d)), "order": order, "tier": tier, "short": True}})
+        res["transitions"] += 1
+        key = digest(("short-gg", case["base"], i, j))
+        res["states"].append(key)
+        if crosses:
+            res["nontrivial"].append(key)
+    # point_within_gca on short meridian arcs (radial lattice line), every block does its share of the rotations
+    if case["block"] == 0:
+        for i, j in itertools.permutations(range(len(rad)), 2):
+            a, b = rad[i], rad[j]
+            if abs(i - j) < 2:
+                continue
+            tags = _tags(a, b)
+            qs = [(p, S.arc_margin(p, a, b) > 0, "on-circle") for k, p in enumerate(rad) if k not in (i, j) and abs(S.arc_margin(p, a, b)) >= MARGIN]
+            qs += [(p, False, "off-circle") for p in loc if S.plane_distance(p, a, b) >= MARGIN]
+            for vname, T in _variants("thorough", 0):
+                g = np.array([_f(T(a)), _f(T(b))])
+                for p, want, where in qs:
+                    res["evaluations"] += 1
+                    try:
+                        got = bool(point_within_gca(_f(T(p)), g))
+                    except Exception as e:
+                        got = "raises:%s" % type(e).__name__
+                    if got != want:
+                        V.append({"oracle": "point_within_gca", "sig": "c14:pwg:short:%s:%s:%s" % (where, "false-negative" if want else ("false-positive" if got is True else got), "+".join(tags) or "generic"), "msg": "short arc %s -> %s (%.2e rad), %s point %s (variant %s): returned %s, exact answer %s" % (S.fl(T(a)), S.fl(T(b)), S.angle_f(a, b), where, S.fl(T(p)), vname, got, want), "focus": {"kind": "replay1", "fn": "pwg", "a": _rat(T(a)), "b": _rat(T(b)), "p": _rat(T(p)), "want": want, "tier": tier, "short": True}})
+            res["transitions"] += 1
+    res["outcomes"].append(digest(("short", case["base"], case["block"], ncross, len(V))))
+    res["axes"] = {"short_pairs": {"crossing": ncross, "disjoint": len(pairs) - ncross}}
+    res["sample"] = {"kind": "short", "base": case["base"], "pairs": len(pairs), "crossing": ncross}
+    return res
 
 
 def selftest_case(tier):
@@ -108,6 +206,8 @@ def run_case(case):
     tagc = {}
     if case["kind"] == "replay1":
         return _replay1(case, res)
+    if case["kind"] == "short":
+        return _run_short(case, res)
     if case["kind"] == "pwg":
         fr = S.frames()[case["frame"]]
         arcs = S.arcs_on(fr)
